@@ -218,7 +218,7 @@ TABLE["C13"] = {
 # bridge modules (lean/InjModel/Tie/<name>.lean: function translated from the source = model function)
 # whose theorems are proof obligations of a property
 TIES = {
-    "C01": ["X86", "Install"], "C13": ["X86"], "C10": ["X86"], "C11": ["Alloc"], "C12": ["Alloc", "Install"],
+    "C01": ["X86", "Install"], "C13": ["X86"], "C10": ["X86", "Install"], "C11": ["Alloc"], "C12": ["Alloc", "Install"],
     "C02": ["Install"], "C03": ["Install"], "C17": ["Install"], "C15": ["A64"],
 }
 
